@@ -17,7 +17,11 @@ ASSUMPTIONS = ["the three fields with registered Poseidon parameters are driven 
                "Props/C20.lean); the zkifbulletproofs 'expected' list there is a copy of the zkifbellman one (second entry not below the "
                "Curve25519 order) and is NOT asserted (C20_cex_bulletproofs_vector)",
                "the real padding code is observed by running poseidon_hash with its permutation replaced by a recorder that returns the zero "
-               "state (the blocks handed to the permutation are then the padded message)"]
+               "state (the blocks handed to the permutation are then the padded message)",
+               "pysnark.nobackend records nothing: under that configuration values and the runtime's own counter runtime.num_constraints are "
+               "observed (no constraint is evaluated there); its modulus 10000 is not prime, the plain reference is the same ring arithmetic",
+               "typed inputs of the completeness scenario are built with PrivVal/PubVal/PrivValBool/PubValBool/PrivValFxp/PubValFxp at the "
+               "default resolution; they are not model-compared (the model's PH line takes integer secrets): direct oracle only"]
 PARTIAL = ["C20_params_partial excludes configurations with a pre-imported derived backend module (finding C20-derived-preimport-params, a "
            "consequence of C19-derived-preimport): there the set of the REPORTED name (zkinterface, BN254) is used over the derived field",
            "value theorems hold whenever the model returns (all parameter sets); totality and the constraint count need well-shaped "
@@ -27,6 +31,12 @@ TRUSTED_EXTRA = ["harness/worker_hash.py and the plain-integer Poseidon / subset
                  "hashlib SHA-512; harness/fbshim (import only)"]
 
 FIELDS = {"zkinterface": "zkif_p", "zkifbellman": "bellman_p", "zkifbulletproofs": "bulletproofs_p"}
+# configurations driven through a long-lived worker besides the three recording fields:
+#   nobackend  - registered parameter set (R_F, R_P, a, rows of its own), modulus of pysnark/nobackend.py, records NOTHING: values
+#                and the runtime's own constraint counter are compared with the model and the plain reference
+#   snarkjs    - no Poseidon parameters (NotImplementedError is C20's selection clause); the subset-sum hash works on every backend
+EXTRA_CONFIGS = {"nobackend": "nobackend_p", "snarkjs": "snarkjs_p"}
+GGH_TABLE = (4096, 65536)           # quick / thorough: indices of SHA512_prng compared with the independent derivation, per field
 NOT_ASSERTED_VECTORS = {"zkifbulletproofs"}
 # NOT a published vector: the value of the plain permutation of [0,1,2,3,4] with the registered zkifbulletproofs set, proved in
 # Props/C20.lean (C20_cex_bulletproofs_vector).  Used ONLY by the extended search, i.e. after that theorem stopped checking, to
@@ -83,6 +93,17 @@ def ref_coef(p, i):
         if v < p:
             return v
         it += 1
+
+
+def ref_coef_draws(p, i):
+    """(coefficient, number of candidates drawn)"""
+    mask = (1 << p.bit_length()) - 1
+    it = 0
+    while True:
+        v = int.from_bytes(hashlib.sha512(i.to_bytes(8, "little") + it.to_bytes(8, "little")).digest(), "little") & mask
+        it += 1
+        if v < p:
+            return v, it
 
 
 def fingerprint(P):
@@ -211,6 +232,140 @@ def gen_ggh(rnd, p, n):
     return cases
 
 
+def gen_ggh_long(rnd, p, draws, n_long):
+    """inputs longer than a field element has bits (282..1100 bits; the coefficient of index i is drawn by rejection sampling, so a
+    coefficient that needed many candidates is rare and sits at a field-dependent index): random / all-ones vectors on the plain
+    and on the traced path, and unit vectors (plus a random lower part) at the indices with the most rejected candidates"""
+    cases = []
+    for k in range(n_long):
+        ln = rnd.choice([282, 283, 300, 515, 600, 601, rnd.randrange(282, 1100), 1024])
+        style = rnd.choice(["long-bits", "long-plain", "long-ones", "long-mixed"])
+        if style == "long-bits":
+            toks = [f"s{rnd.randrange(2)}" for _ in range(ln)]
+        elif style == "long-plain":
+            toks = [f"i{rnd.randrange(2)}" for _ in range(ln)]
+        elif style == "long-ones":
+            toks = [rnd.choice("si") + "1"] * ln
+        else:
+            toks = [(f"s{rnd.randrange(2)}" if i == 0 or rnd.random() < 0.5 else f"i{rnd.randrange(2)}") for i in range(ln)]
+        cases.append((toks, style))
+    hard_traced = sorted(range(min(1100, len(draws))), key=lambda i: (-draws[i], i))[:3]
+    hard_plain = sorted(range(len(draws)), key=lambda i: (-draws[i], i))[:3]
+    for i in hard_traced:
+        cases.append(([f"s0"] * i + ["s1"], "unit-traced"))
+        cases.append(([f"s{rnd.randrange(2)}" for _ in range(i)] + ["s1"], "hard-traced"))
+    for i in sorted(set(hard_plain + hard_traced)):
+        cases.append((["i0"] * i + ["i1"], "unit-plain"))
+    return cases
+
+
+# ------------------------------------------------------------------ completeness of the hash gadgets on every recording field
+TYPED = "subcxy"
+
+
+def typed_token(rnd, p, res):
+    """(token, integer the gadget sees): integer secrets / publics across the field, booleans, fixed-point values (scaled by 2^res)"""
+    k = rnd.choice("sssuubcxy")
+    if k in "su":
+        v = value_of(rnd, rnd.choice(CLASSES), p)
+        return f"{k}{v}", v
+    if k in "bc":
+        v = rnd.randrange(2)
+        return f"{k}{v}", v
+    e = rnd.choice([0, 1, 2, res])
+    m = rnd.randrange(-4000, 4001)
+    return f"{k}{m}:{e}", (abs(m) << (res - e)) * (1 if m >= 0 else -1)       # add_scaling truncates toward zero (exact here: e <= res)
+
+
+def gen_completeness(rnd, be, p, P, n, res=8):
+    """(line, meta) list: permute / poseidon_hash / ggh_hash traced on THIS backend's field with inputs of every secret type,
+    outside and inside a taken guard; judged by `judge_completeness`"""
+    cases = []
+    t = P["t"]; rate = t - 1
+    for k in range(n):
+        gadget = ["permute", "hash", "hash", "ggh"][k % 4] if k >= 4 else ["permute", "hash", "hash", "ggh"][k]
+        guard = "1" if (k // 4) % 3 == 1 or rnd.random() < 0.15 else "-"
+        if gadget == "ggh":
+            ln = rnd.choice([1, 8, 64, 254, 300])
+            toks = [f"s{rnd.randrange(2)}" for _ in range(ln)]; ints = [int(x[1:]) for x in toks]
+        else:
+            ln = t if gadget == "permute" else rnd.choice([0, 1, 3, rate, rate + 1, 2 * rate - 1])
+            pairs = [typed_token(rnd, p, res) for _ in range(ln)]
+            toks = [a for a, _ in pairs]; ints = [b_ for _, b_ in pairs]
+        cases.append((f"PC|{be}-c{k}|{p}|{gadget}|{guard}|{','.join(toks)}",
+                      {"gadget": gadget, "guard": guard == "1", "ints": ints, "kinds": "".join(sorted(set(x[0] for x in toks)))}))
+    return cases
+
+
+def judge_completeness(ex, be, p, P, cases, outs, clauses=("satisfied", "output-wire", "value")):
+    """C20's clause `every recorded constraint holds on the recorded witness / every returned value is congruent to its wire
+    expression / equals the plain reference`, per backend field, for typed inputs and taken guards"""
+    for (line, meta), r in zip(cases, outs):
+        ex.evaluations += 1
+        g = meta["gadget"]
+        ex.count(f"backend:{be}"); ex.count(f"completeness:{g}{'+guard' if meta['guard'] else ''}"); ex.count("mode:completeness")
+        for kd in meta["kinds"]:
+            ex.count(f"completeness-input:{kd}")
+        ex.distinct.add((be, "completeness", g, meta["guard"], meta["kinds"], len(meta["ints"])))
+        rf = r.split("|")
+        if len(rf) > 1 and rf[1] == "harness-error":
+            raise common.Infra(r[:600])
+        rep = {"kind": "completeness", "backend": be, "line": line[:6000]}
+        base = {"mode": g, "scenario": "typed-inputs" + ("+taken-guard" if meta["guard"] else ""), "shape": "hash-gadget", "op": g,
+                "guarded": meta["guard"], "backend": be}
+        if rf[1].startswith("err:"):
+            if "value" in clauses:
+                ex.violations.append(Violation(dict(base, clause="value", dev="raises", error=rf[1][4:]),
+                                               f"{be}: {g} on {len(meta['ints'])} typed inputs ({meta['kinds']}) raised {rf[1][4:]}", rep))
+            continue
+        fld = dict(x.split("=", 1) for x in rf[2:] if "=" in x)
+        if fld.get("nunsat") != "0" and "satisfied" in clauses:
+            ex.violations.append(Violation(dict(base, clause="satisfied"),
+                                           f"{be}: {g} on {len(meta['ints'])} inputs of kinds {meta['kinds']}"
+                                           f"{' inside guarded(1)' if meta['guard'] else ''}: {fld.get('nunsat')} of {fld.get('ncons')} recorded "
+                                           f"constraints are not satisfied by the recorded witness modulo the backend's prime (first: #{fld.get('unsat', '').split(',')[0]})", rep))
+        if fld.get("incoh") and "output-wire" in clauses:
+            ex.violations.append(Violation(dict(base, clause="output-wire"),
+                                           f"{be}: {g}: returned value no. {fld['incoh']} is not congruent to its wire expression on the recorded witness", rep))
+        if "value" in clauses:
+            got = [int(x) for x in rf[1].split(",") if x.lstrip("-").isdigit()]
+            if g == "ggh":
+                want = [sum(b_ * ref_coef(p, i) for i, b_ in enumerate(meta["ints"])) % p]
+            else:
+                want = ref_permute(P, p, meta["ints"]) if g == "permute" else ref_hash(P, p, meta["ints"])
+            if got != want:
+                cong = len(got) == len(want) and all((x - y) % p == 0 for x, y in zip(got, want))
+                ex.violations.append(Violation(dict(base, clause="value", dev="congruent-not-reduced" if cong else "wrong-value"),
+                                               f"{be}: {g} on typed inputs ({meta['kinds']}) returns {str(got[:1])[:40]}…, plain reference {str(want[:1])[:40]}…", rep))
+
+
+def hash_gadget_completeness(ctx, extended=False, clauses=("satisfied",)):
+    """For C01 (completeness): the hash gadgets traced under EVERY zkinterface-family backend (own prime each), inputs of every
+    secret type, outside and inside a taken guard; returns the Violation objects for the recorded constraints that the recorded
+    witness does not satisfy.  Needs ctx.consts / ctx.poseidon (set by the framework before explore)."""
+    ex = Exploration()
+    n = ctx.n(16, 160) * (3 if extended else 1)
+    if not ctx.consts or not ctx.poseidon:
+        return []
+    todo = {}
+    for be, key in FIELDS.items():
+        p = ctx.consts.get(key)
+        if p and be in ctx.poseidon:
+            todo[be] = (p, ctx.poseidon[be], gen_completeness(ctx.rnd, be, p, ctx.poseidon[be], n))
+    def run(be):
+        w = common.Worker(be, "worker_hash.py")
+        try:
+            return w.run([l for l, _ in todo[be][2]])
+        finally:
+            w.close()
+    with cf.ThreadPoolExecutor(len(todo) or 1) as pool:
+        outs = dict(zip(todo, pool.map(run, list(todo))))
+    for be, (p, P, cases) in todo.items():
+        judge_completeness(ex, be, p, P, cases, outs[be], clauses)
+    ctx.hash_gadget_completeness_stats = {"evaluations": ex.evaluations, "hist": ex.hist}
+    return ex.violations
+
+
 # ------------------------------------------------------------------ drivers
 def lean_parallel(lines, nproc=8):
     """the interpreted model needs ~0.3 s per permutation: spread the lines over several driver processes"""
@@ -266,7 +421,9 @@ if "runtime_error" not in out:
         if out["module"].startswith("pysnark.zkinterface") or out["module"] in ("pysnark.nobackend", "pysnark.snarkjsbackend"):
             from pysnark.runtime import PrivVal          # in-memory backends only (qaptools writes files per wire)
             try:
+                n0 = R.num_constraints
                 out["perm01234"] = [str(x.value) for x in H.permute([PrivVal(i) for i in range(H.t)])]
+                out["perm_ncons"] = R.num_constraints - n0
             except Exception as e:
                 out["perm_error"] = type(e).__name__
     except NotImplementedError as e:
@@ -354,7 +511,16 @@ def explore(ctx, extended=False, focus=None):
                "families; subset-sum hash on secret bit vectors vs sum b_i*coef_i mod p; then one fresh interpreter per selection path "
                "(each PYSNARK_BACKEND value, each backend module pre-imported with and without a conflicting variable, auto-detection with "
                "each loadable module first in turn, IPython) reporting the parameter object in use; distinct = (backend, mode, length, "
-               "value classes) resp. selection configurations")
+               "value classes) resp. selection configurations; NOBACKEND CONFIGURATION (PYSNARK_BACKEND=nobackend worker: registered set with "
+               "R_F+R_P = 4 rounds and a 68-row table, modulus 10000, nothing recorded): permutations and sponges of every length compared "
+               "with the model and the plain reference run with THAT set, constraints per permutation from runtime.num_constraints; in "
+               "every selection interpreter the permutation of [0..t-1] and its constraint count are compared with the plain reference for "
+               "the registered set of the reported backend over the modulus in effect; SUBSET-SUM COEFFICIENTS: SHA512_prng(i) for i < 4096 "
+               "(thorough 65536) on every field (snarkjs and zkinterface BN254, BLS12-381, Curve25519 order) against an independent "
+               "rejection-sampling derivation, inputs of 282..1100 bits on the plain and the traced path, unit vectors at the indices whose "
+               "coefficient needed the most candidates; COMPLETENESS PER FIELD: permute / poseidon_hash / ggh_hash traced under each "
+               "zkinterface-family backend on integer, public, boolean and fixed-point inputs, outside and inside a taken guard: every "
+               "recorded constraint on the recorded witness, every returned value against its wire expression and the plain reference")
     if not ctx.consts or not ctx.poseidon:
         ex.disagreements.append({"what": "constants or Poseidon table could not be extracted from the source"})
         return ex
@@ -370,6 +536,10 @@ def explore(ctx, extended=False, focus=None):
 
     # ---------------- values, shapes, padding, ggh: one long-lived worker per field
     jobs = {}
+    draws = {}
+    n_table = GGH_TABLE[1] if ctx.thorough() else GGH_TABLE[0]
+    n_long = ctx.n(5, 60) * mult
+    n_comp = ctx.n(10, 120) * mult
     for be, key in FIELDS.items():
         p = ctx.consts.get(key)
         if not p or be not in table:
@@ -379,8 +549,24 @@ def explore(ctx, extended=False, focus=None):
         pos = gen_poseidon(ctx.rnd, be, p, P["t"], n_perm, n_hash, vectors.get(be) if be not in NOT_ASSERTED_VECTORS else
                            (vectors.get(be, ([0, 1, 2, 3, 4], None))[0], None), P["round_constants"][0])
         pads = gen_padding(ctx.rnd, P["t"] - 1, n_pad)
-        gghs = gen_ggh(ctx.rnd, p, n_ggh)
+        draws[be] = [ref_coef_draws(p, i) for i in range(n_table)]
+        gghs = gen_ggh(ctx.rnd, p, n_ggh) + gen_ggh_long(ctx.rnd, p, [d for _, d in draws[be]], n_long)
         jobs[be] = (p, P, pos, pads, gghs)
+    for be, key in EXTRA_CONFIGS.items():
+        p = ctx.consts.get(key)
+        if not p:
+            ex.disagreements.append({"backend": be, "what": "modulus missing from the source"})
+            continue
+        if be in table:
+            # a registered set on a backend that records nothing: permutations and sponges, every length, values across Z_p
+            P = table[be]
+            pos = gen_poseidon(ctx.rnd, be, p, P["t"], n_perm * 2, n_hash, ([0, 1, 2, 3, 4][:P["t"]] + [0] * (P["t"] - 5), None),
+                               P["round_constants"][0])
+            jobs[be] = (p, P, pos, gen_padding(ctx.rnd, P["t"] - 1, n_pad // 4), [])
+        else:
+            draws[be] = [ref_coef_draws(p, i) for i in range(n_table)]
+            jobs[be] = (p, None, [], [], gen_ggh(ctx.rnd, p, n_ggh // 3) + gen_ggh_long(ctx.rnd, p, [d for _, d in draws[be]], max(n_long // 2, 2)))
+    comp = {be: gen_completeness(ctx.rnd, be, jobs[be][0], jobs[be][1], n_comp) for be in FIELDS if be in jobs}
 
     def run_backend(be):
         p, P, pos, pads, gghs = jobs[be]
@@ -388,11 +574,17 @@ def explore(ctx, extended=False, focus=None):
         try:
             lines = ["INFO|info"] + [l for l, _ in pos] + [f"PAD|pad{i}|{','.join(map(str, m))}" for i, m in enumerate(pads)] + \
                     [f"PG|{be}-g{i}|{p}||{','.join(t)}" for i, (t, _) in enumerate(gghs)]
+            if be in draws:
+                lines.append(f"GC|{be}-table|{p}|{n_table}")
+            lines += [l for l, _ in comp.get(be, [])]
             return w.run(lines)
         finally:
             w.close()
-    with cf.ThreadPoolExecutor(3) as pool:
+    import time
+    t_ph = time.time()
+    with cf.ThreadPoolExecutor(len(jobs) or 1) as pool:
         outs = dict(zip(jobs, pool.map(run_backend, list(jobs))))
+    t_ph = time.time() - t_ph
 
     lean_lines = []; lean_index = []
     parsed = {}
@@ -401,15 +593,39 @@ def explore(ctx, extended=False, focus=None):
         if any("|harness-error|" in x for x in o):
             raise common.Infra(next(x for x in o if "|harness-error|" in x)[:600])
         info = o[0].split("|")
-        o_pos = o[1:1 + len(pos)]; o_pad = o[1 + len(pos):1 + len(pos) + len(pads)]; o_ggh = o[1 + len(pos) + len(pads):]
+        o_pos = o[1:1 + len(pos)]; o_pad = o[1 + len(pos):1 + len(pos) + len(pads)]
+        k0 = 1 + len(pos) + len(pads)
+        o_ggh = o[k0:k0 + len(gghs)]; k0 += len(gghs)
+        o_tab = o[k0] if be in draws else None
+        o_comp = o[k0 + (1 if be in draws else 0):]
         parsed[be] = (info, o_pos, o_pad, o_ggh)
+        # ---- the coefficient table of the subset-sum hash, far beyond the length of any hashed input: index by index against
+        # the independent SHA-512 derivation over THIS field (rejection sampling: first candidate below p, however many it takes)
+        if o_tab is not None:
+            ex.evaluations += 1; ex.count("mode:ggh-table"); ex.count(f"ggh-table:{be}:{n_table}")
+            ex.count(f"ggh-table-maxdraws:{be}:{max(d for _, d in draws[be])}")
+            ex.distinct.add((be, "ggh-table", n_table))
+            own = [int(x) for x in o_tab.split("|", 1)[1].split(",") if x] if "|" in o_tab and "err" not in o_tab.split("|")[1][:4] else []
+            mine = [c for c, _ in draws[be]]
+            if own != mine:
+                bad = [i for i, (x, y) in enumerate(zip(own, mine)) if x != y] or [min(len(own), len(mine))]
+                i = bad[0]
+                ex.violations.append(Violation({"clause": "ggh-coefficients", "mode": "ggh-table"},
+                                               f"{be}: SHA512_prng({i}) = {str(own[i])[:30] if i < len(own) else None}…, the first SHA-512 candidate "
+                                               f"below p is {str(mine[i])[:30] if i < len(mine) else None}… (candidate no. {draws[be][i][1] if i < len(mine) else '?'}); "
+                                               f"{len(bad)} of {n_table} indices differ: {bad[:6]}",
+                                               {"kind": "ggh-table", "backend": be, "index": i, "indices": bad[:20], "n": n_table}))
+        judge_completeness(ex, be, p, P, comp.get(be, []), o_comp)
         for (line, meta), r in zip(pos, o_pos):
             lean_lines.append(line); lean_index.append((be, "ph", line, meta, r))
         for i, ((toks, style), r) in enumerate(zip(gghs, o_ggh)):
             coefs = r.rsplit("|coefs=", 1)[1] if "|coefs=" in r else ""
             line = f"PG|{be}-g{i}|{p}|{coefs}|{','.join(toks)}"
             lean_lines.append(line); lean_index.append((be, "ggh", line, {"style": style, "toks": toks}, r))
+    t_model = time.time()
     model = lean_parallel(lean_lines)
+    t_model = time.time() - t_model
+    ex.notes.append(f"phase timings: workers {t_ph:.1f} s, model driver {t_model:.1f} s ({len(lean_lines)} lines)")
 
     shapes = {}
     for (be, kind, line, meta, r), m in zip(lean_index, model):
@@ -431,8 +647,14 @@ def explore(ctx, extended=False, focus=None):
             else:
                 ex.count("status:ok")
                 fld = dict(x.split("=", 1) for x in rf[2:])
-                impl_c = "|".join([rf[1]] + [f"{k}={fld.get(k)}" for k in ("ncons", "npriv", "sdig", "odig", "wdig")])
-                model_c = "|".join(mf[1:7]) if len(mf) >= 7 else m
+                if fld.get("npriv") == "na":
+                    # nothing recorded (nobackend): values as reported and the number of constraints handed to the backend
+                    ex.count("records:no")
+                    impl_c = "|".join([rf[1], f"ncons={fld.get('ncons')}"])
+                    model_c = "|".join(mf[1:3]) if len(mf) >= 7 else m
+                else:
+                    impl_c = "|".join([rf[1]] + [f"{k}={fld.get(k)}" for k in ("ncons", "npriv", "sdig", "odig", "wdig")])
+                    model_c = "|".join(mf[1:7]) if len(mf) >= 7 else m
             if impl_c != model_c:
                 ex.disagreements.append({"backend": be, "line": line[:600], "impl": impl_c[:500], "model": model_c[:500]})
             else:
@@ -450,7 +672,8 @@ def explore(ctx, extended=False, focus=None):
             want = ref_permute(P, p, vs) if mode == "permute" else ref_hash(P, p, vs)
             if got != want:
                 cong = len(got) == len(want) and all((g - w_) % p == 0 for g, w_ in zip(got, want))
-                ex.violations.append(Violation({"clause": "value", "mode": mode, "dev": "congruent-not-reduced" if cong else "wrong-value"},
+                ex.violations.append(Violation(dict({"clause": "value", "mode": mode, "dev": "congruent-not-reduced" if cong else "wrong-value"},
+                                                    **({"config": be} if be in EXTRA_CONFIGS else {})),
                                                f"{be}: {mode} on {n} inputs ({','.join(sorted(set(meta['classes'])))}) returns "
                                                f"{str(got[:1])[:40]}…, plain reference {str(want[:1])[:40]}…"
                                                + (" (congruent modulo p, not the field element's representative)" if cong else ""), rep))
@@ -474,10 +697,10 @@ def explore(ctx, extended=False, focus=None):
                 ex.violations.append(Violation({"clause": "vector", "mode": "permute", "backend": be, "dev": "pinned-by-theorem"},
                                                f"{be}: permutation of [0,1,2,3,4] is no longer the value pinned by C20_cex_bulletproofs_vector "
                                                f"(parameter set or algorithm changed)", rep))
-            if fld.get("unsat") != "0":
+            if fld.get("unsat") not in ("0", "na"):
                 ex.violations.append(Violation({"clause": "satisfied", "mode": mode}, f"{be}: {fld.get('unsat')} recorded constraints are "
                                                f"not satisfied by the recorded witness", rep))
-            if fld.get("incoh") != "0":
+            if fld.get("incoh") not in ("0", "na"):
                 ex.violations.append(Violation({"clause": "output-wire", "mode": mode}, f"{be}: {fld.get('incoh')} outputs whose wire "
                                                f"expression does not evaluate to the reported value", rep))
             # constraint count/shape is a function of the length only
@@ -492,15 +715,16 @@ def explore(ctx, extended=False, focus=None):
             perms = 1 if mode == "permute" else n // (P["t"] - 1) + 1
             per = (P["R_F"] * P["t"] + P["R_P"]) * (P["a"] - 1)
             if fld.get("ncons") != str(perms * per):
-                ex.violations.append(Violation({"clause": "count", "mode": mode}, f"{be}: {mode} on {n} inputs emits {fld.get('ncons')} "
+                ex.violations.append(Violation(dict({"clause": "count", "mode": mode}, **({"config": be} if be in EXTRA_CONFIGS else {})),
+                                               f"{be}: {mode} on {n} inputs emits {fld.get('ncons')} "
                                                f"constraints, (R_F*t+R_P)*(a-1) per permutation gives {perms * per}", rep))
             if len(ex.samples) < 4 and mode == "hash" and n:
                 ex.samples.append({"line": line[:300], "impl": r[:200]})
         else:
             toks = meta["toks"]
-            ex.count(f"backend:{be}"); ex.count("mode:ggh"); ex.count(f"ggh:{meta['style']}"); ex.count(f"ggh-len:{min(len(toks), 300) // 32 * 32}+")
+            ex.count(f"backend:{be}"); ex.count("mode:ggh"); ex.count(f"ggh:{meta['style']}"); ex.count(f"ggh-len:{min(len(toks), 1280) // 32 * 32}+")
             ex.distinct.add((be, "ggh", len(toks), meta["style"]))
-            rep = {"kind": "ggh", "backend": be, "line": line[:200] + "…", "bits": ",".join(toks)[:3000]}
+            rep = {"kind": "ggh", "backend": be, "line": line[:200] + "…", "bits": ",".join(toks)[:40000]}
             impl_c = "|".join(x for x in rf[1:] if not x.startswith(("coefs=", "incoh=")))
             model_c = "|".join(mf[1:])
             if impl_c != model_c:
@@ -508,7 +732,7 @@ def explore(ctx, extended=False, focus=None):
             else:
                 ex.traces_validated += 1
             own = [int(x) for x in (r.rsplit("|coefs=", 1)[1].split(",") if "|coefs=" in r else []) if x]
-            mine = [ref_coef(p, i) for i in range(len(toks))]
+            mine = [c for c, _ in draws[be][:len(toks)]] if be in draws and len(toks) <= len(draws[be]) else [ref_coef(p, i) for i in range(len(toks))]
             if own != mine:
                 ex.violations.append(Violation({"clause": "ggh-coefficients", "mode": "ggh"},
                                                f"{be}: SHA512_prng table differs from the SHA-512 derivation at index "
@@ -537,6 +761,8 @@ def explore(ctx, extended=False, focus=None):
     # padding: the real padding code vs the reference rule, and injectivity on the observed padded forms
     for be, (p, P, pos, pads, gghs) in jobs.items():
         info, _, o_pad, _ = parsed[be]
+        if P is None:
+            continue                # no registered parameters (snarkjs): only the subset-sum hash runs there
         rate = P["t"] - 1
         seen = {}
         for msg, r in zip(pads, o_pad):
@@ -574,8 +800,10 @@ def explore(ctx, extended=False, focus=None):
                 "nobackend": ctx.consts["nobackend_p"], "snarkjs": ctx.consts["snarkjs_p"], "qaptools": ctx.consts["qaptools_p"]}
     fps = {k: [str(x) for x in fingerprint(v)] for k, v in table.items()}
     cfgs = select_configs(ctx.rnd, reg, ctx.n(0, 250) * mult)
+    t_sel = time.time()
     with cf.ThreadPoolExecutor(14) as pool:
         souts = list(pool.map(run_select, cfgs))
+    ex.notes.append(f"phase timings: {len(cfgs)} selection interpreters {time.time() - t_sel:.1f} s")
     slines = []
     for i, c in enumerate(cfgs):
         slines.append(f"PS|s{i}|{'-' if c['env'] is None else c['env']}|{','.join(c19.closure_pre(c['pre']))}|{','.join(c['unloadable'])}|{int(c['ipython'])}")
@@ -599,7 +827,7 @@ def explore(ctx, extended=False, focus=None):
             ex.disagreements.append({"config": c, "impl": impl_c[:300], "model": model_c[:300]})
         else:
             ex.traces_validated += 1
-        obs = {k: o.get(k) for k in ("name", "module", "modulus", "keys_is", "poseidon", "runtime_error", "perm01234")}
+        obs = {k: o.get(k) for k in ("name", "module", "modulus", "keys_is", "poseidon", "runtime_error", "perm01234", "perm_ncons", "perm_error")}
         if obs.get("perm01234"):
             obs["perm01234"] = obs["perm01234"][:1]
         rep = {"kind": "select", "config": c, "observed": obs}
@@ -637,6 +865,26 @@ def explore(ctx, extended=False, focus=None):
                                             "derived_preimported": bool(derived)},
                                            f"pre-imported {c['pre']}: reported backend {name}, parameter set {used}, but the field in effect has "
                                            f"modulus {str(modulus)[:16]}… whose registered set is {for_field or 'none'}", rep))
+        # whatever the selection path: the permutation computed in THIS interpreter is the plain permutation with the registered
+        # set of the reported backend (its R_F, R_P, a, rows and matrix) over the modulus in effect, at the registered cost
+        Pn = table[name]
+        if o.get("perm_error"):
+            ex.violations.append(Violation({"clause": "value", "mode": "permute", "path": path, "dev": "raises", "config": "select"},
+                                           f"backend {name} selected by {path}: permute([0..t-1]) raised {o['perm_error']}", rep))
+        elif o.get("perm01234") and isinstance(modulus, int) and modulus > 0:
+            ex.count("select:permutation-compared"); ex.count(f"select:permutation:{name}")
+            got = [int(x) for x in o["perm01234"]]
+            want = ref_permute(Pn, modulus, list(range(Pn["t"])))
+            if got != want:
+                ex.violations.append(Violation({"clause": "value", "mode": "permute", "path": path, "dev": "wrong-value", "config": "select"},
+                                               f"backend {name} ({module}) selected by {path}: permute([0..{Pn['t'] - 1}]) = {str(got[:1])[:40]}…, the plain "
+                                               f"permutation with the set registered for {name} (R_F={Pn['R_F']}, R_P={Pn['R_P']}, a={Pn['a']}) over "
+                                               f"{str(modulus)[:12]}… gives {str(want[:1])[:40]}…", rep))
+            per = (Pn["R_F"] * Pn["t"] + Pn["R_P"]) * (Pn["a"] - 1)
+            if o.get("perm_ncons") is not None and o["perm_ncons"] != per:
+                ex.violations.append(Violation({"clause": "count", "mode": "permute", "path": path, "config": "select"},
+                                               f"backend {name} selected by {path}: one permutation hands {o['perm_ncons']} constraints to the backend, "
+                                               f"(R_F*t+R_P)*(a-1) = {per}", rep))
         if len(ex.samples) < 8:
             ex.samples.append({"config": {x: c[x] for x in ("env", "pre", "ipython")}, "path": path, "name": name, "params": used})
     return ex
@@ -664,6 +912,13 @@ def replay(ctx, payload):
             msgs = [r["message"]] + ([r["other"]] if r.get("other") else [])
             for mmsg, o in zip(msgs, w.run([f"PAD|pad|{','.join(map(str, mmsg))}" for mmsg in msgs])):
                 print(mmsg, "->", o[:600])
+        elif kind == "completeness":
+            print(w.run([r["line"]])[0][:1500])
+        elif kind == "ggh-table":
+            p = int(w.run(["INFO|i"])[0].split("|")[3])
+            own = w.run([f"GC|t|{p}|{r['n']}"])[0].split("|", 1)[1].split(",")
+            for i in r["indices"]:
+                print(f"SHA512_prng({i}) = {own[i]}   independent derivation: {ref_coef_draws(p, i)}")
         elif kind == "ggh":
             p = w.run(["INFO|i"])[0].split("|")[3]
             print(w.run([f"PG|g|{p}||{r['bits']}"])[0][:1500])
